@@ -1,4 +1,4 @@
-import Ledger.Driver.Core
+import Ledger.Driver.Wrap
 
 /-! `ldriver_wrap`: correspondence driver for the Wrap area (core-only). -/
-def main : IO Unit := Ledger.Driver.runDriver []
+def main : IO Unit := Ledger.Driver.runDriver Ledger.Driver.wrapHandlers
